@@ -28,6 +28,8 @@ REDIRECTS = [
     "a or <falsy constant of a's type> -> __vf_or_const__ (value-identical, avoids a fork)",
     "import re -> re = __vf_wrap_re__(re) (facade: native on concrete strings)",
     "for loops with a registered cut-point invariant -> loop-cut hook (identity when none is registered)",
+    "while loops -> __vf_while_enter__/__vf_while_step__ probes around the loop (no effect unless a cut-point "
+    "invariant is registered for the loop)",
 ]
 
 
@@ -77,6 +79,39 @@ class Rewrite(ast.NodeTransformer):
         self._c("for")
         node.iter = self._call("__vf_loop_iter__", [ast.Constant(key), node.iter], node.iter)
         return node
+
+    def visit_While(self, node):
+        """cut-point instrumentation (identity unless a cut is registered for the loop's key)"""
+        qual = ".".join(self.func_stack)
+        n = self.loop_ordinals.get(qual + "/while", 0)
+        self.loop_ordinals[qual + "/while"] = n + 1
+        self.generic_visit(node)
+        if node.orelse or any(isinstance(x, (ast.Continue, ast.Break)) for x in ast.walk(node)):
+            return node
+        key = "%s.%s#while%d" % (self.modname, qual, n)
+        self._c("while")
+        assigned = sorted({t.id for st in ast.walk(node) for t in ast.walk(st)
+                           if isinstance(t, ast.Name) and isinstance(t.ctx, ast.Store)})
+        loc = ast.Call(func=ast.Name("locals", ast.Load()), args=[], keywords=[])
+        enter = ast.Assign(targets=[ast.Name("__vf_st", ast.Store())],
+                           value=ast.Call(func=ast.Name("__vf_while_enter__", ast.Load()),
+                                          args=[ast.Constant(key), loc], keywords=[]))
+        rebinding = [ast.Assign(targets=[ast.Name(v, ast.Store())],
+                                value=ast.Subscript(value=ast.Name("__vf_st", ast.Load()), slice=ast.Constant(v), ctx=ast.Load()))
+                     for v in assigned]
+        guard = ast.If(test=ast.Compare(left=ast.Name("__vf_st", ast.Load()), ops=[ast.IsNot()], comparators=[ast.Constant(None)]),
+                       body=rebinding or [ast.Pass()], orelse=[])
+        step = ast.Expr(ast.Call(func=ast.Name("__vf_while_step__", ast.Load()),
+                                 args=[ast.Constant(key), ast.Call(func=ast.Name("locals", ast.Load()), args=[], keywords=[])],
+                                 keywords=[]))
+        node.body = node.body + [step]
+        out = [enter, guard, node]
+        for x in out:
+            ast.copy_location(x, node)
+            for y in ast.walk(x):
+                if not hasattr(y, "lineno"):
+                    ast.copy_location(y, node)
+        return out
 
     def visit_BinOp(self, node):
         self.generic_visit(node)
@@ -626,6 +661,23 @@ def vf_loop_iter(key, it):
     return it
 
 
+# while-loop cut registry: key -> object with enter(locals) -> dict|None and step(locals)
+WHILE_CUTS = {}
+
+
+def vf_while_enter(key, loc):
+    h = WHILE_CUTS.get(key)
+    if h is None:
+        return None
+    return h.enter(loc)
+
+
+def vf_while_step(key, loc):
+    h = WHILE_CUTS.get(key)
+    if h is not None:
+        h.step(loc)
+
+
 def vf_wrap_re(real_re):
     from . import ext
     return ext.ReFacade(real_re)
@@ -640,5 +692,5 @@ HOOKS = {
     "__vf_sum__": vf_sum, "__vf_any__": vf_any, "__vf_all__": vf_all, "__vf_tuple__": vf_tuple,
     "__vf_list__": vf_list, "__vf_sorted__": vf_sorted, "__vf_getitem__": vf_getitem, "__vf_get__": vf_get,
     "__vf_in__": vf_in, "__vf_or_const__": vf_or_const, "__vf_loop_iter__": vf_loop_iter,
-    "__vf_wrap_re__": vf_wrap_re,
+    "__vf_wrap_re__": vf_wrap_re, "__vf_while_enter__": vf_while_enter, "__vf_while_step__": vf_while_step,
 }
